@@ -25,6 +25,7 @@ import (
 
 	"filippo.io/age"
 	"filippo.io/age/internal/format"
+	"filippo.io/age/internal/verifhook"
 	"filippo.io/edwards25519"
 	"golang.org/x/crypto/chacha20poly1305"
 	"golang.org/x/crypto/curve25519"
@@ -70,6 +71,7 @@ func NewRSARecipient(pk ssh.PublicKey) (*RSARecipient, error) {
 }
 
 func (r *RSARecipient) Wrap(fileKey []byte) ([]*age.Stanza, error) {
+	verifhook.Point("sshrsa.wrap")
 	l := &age.Stanza{
 		Type: "ssh-rsa",
 		Args: []string{sshFingerprint(r.sshKey)},
@@ -115,6 +117,7 @@ func (i *RSAIdentity) Unwrap(stanzas []*age.Stanza) ([]byte, error) {
 }
 
 func (i *RSAIdentity) unwrap(block *age.Stanza) ([]byte, error) {
+	verifhook.Point("sshrsa.unwrap")
 	if block.Type != "ssh-rsa" {
 		return nil, age.ErrIncorrectIdentity
 	}
@@ -200,6 +203,7 @@ func ed25519PublicKeyToCurve25519(pk ed25519.PublicKey) ([]byte, error) {
 const ed25519Label = "age-encryption.org/v1/ssh-ed25519"
 
 func (r *Ed25519Recipient) Wrap(fileKey []byte) ([]*age.Stanza, error) {
+	verifhook.Point("sshed25519.wrap")
 	ephemeral := make([]byte, curve25519.ScalarSize)
 	if _, err := rand.Read(ephemeral); err != nil {
 		return nil, err
@@ -303,6 +307,7 @@ func (i *Ed25519Identity) Unwrap(stanzas []*age.Stanza) ([]byte, error) {
 }
 
 func (i *Ed25519Identity) unwrap(block *age.Stanza) ([]byte, error) {
+	verifhook.Point("sshed25519.unwrap")
 	if block.Type != "ssh-ed25519" {
 		return nil, age.ErrIncorrectIdentity
 	}
